@@ -6,6 +6,8 @@ import (
 	"fmt"
 	"math"
 	"math/big"
+	"os"
+	"reflect"
 	"strconv"
 	"strings"
 	"time"
@@ -130,6 +132,11 @@ func c04Replay(i int, raw json.RawMessage) Result {
 		// "not" takes the whole comparison / arithmetic expression that follows it: the parentheses are optional
 		forms["notbare"] = "! " + strings.Join(v.Toks[2:len(v.Toks)-1], " ")
 		fnames = append(fnames, "notbare")
+	}
+	if i == 0 && os.Getenv("VERIF_TRACE") == "" {
+		if r := c04HeldValues(); r != nil {
+			return *r
+		}
 	}
 	if i == 0 {
 		// the right operand of a string concatenation is rendered like the value itself would be
@@ -298,4 +305,86 @@ func c05CondReplay(i int, raw json.RawMessage) Result {
 func init() {
 	commands["replay-C05cond"] = func(a []string) int { return replayLoop(a[0], a[1], c05CondReplay) }
 	commands["replay-C04"] = func(a []string) int { return replayLoop(a[0], a[1], c04Replay) }
+}
+
+// c04HeldValues: history probe. The value an operator expression yielded stays that value while the same expression
+// (the same node of the tree) is evaluated again: bound to a variable across a recursive yield of the block that holds
+// it, and kept by a jet.Func across the iterations of a range. The expected text is what the expression renders to when
+// it is evaluated once, on its own, for each operand (that single evaluation is what the vectors judge).
+func c04HeldValues() *Result {
+	exprs := []string{"-v", "+v", "- v", "-(v+1)", "-(-v)", "4 - -v", "-v*2", "v+1", "1+v", "v-1", "v*3", "v/2", "3%(v+1)", "v<2", "v<=1", "v==1", "v!=1", "!(v<2)", "v<2&&v>0", "v<1||v>1", `"s"+v`, "-w", "-w+v", "- 2 * v + 1"}
+	type operand struct{ v, w interface{} }
+	kinds := map[string][]operand{
+		"float": {{1.5, 2.5}, {2.5, -1.0}, {0.0, 7.25}},
+		"int":   {{1, 2}, {2, -1}, {0, 7}},
+		"uint":  {{uint(1), uint8(2)}, {uint(2), uint8(1)}, {uint(0), uint8(7)}},
+		"mixed": {{1, 2.5}, {2.5, 3}, {int8(0), float32(0.5)}},
+	}
+	for _, kname := range []string{"float", "int", "uint", "mixed"} {
+		ops := kinds[kname]
+		for _, e := range exprs {
+			l := jet.NewInMemLoader()
+			l.Set("/one.jet", "[{{ "+e+" }}]")
+			l.Set("/lib.jet", "{{ block rec(n=0, vs=0, ws=0) }}{{ v := vs[n] }}{{ w := ws[n] }}{{ m := "+e+" }}{{ if n < 2 }}{{ yield rec(n=n+1, vs=vs, ws=ws) }}{{ end }}[{{ m }}]{{ end }}")
+			l.Set("/rec.jet", `{{ import "/lib.jet" }}{{ yield rec(n=0, vs=vs, ws=ws) }}`)
+			l.Set("/keep.jet", "{{ range n, v := vs }}{{ w := ws[n] }}{{ keep("+e+") }}{{ end }}{{ show() }}")
+			set := jet.NewSet(l)
+			var kept []reflect.Value
+			set.AddGlobalFunc("keep", func(a jet.Arguments) reflect.Value { kept = append(kept, a.Get(0)); return reflect.ValueOf("") })
+			set.AddGlobalFunc("show", func(a jet.Arguments) reflect.Value {
+				s := ""
+				for _, k := range kept {
+					s += fmt.Sprintf("[%v]", k.Interface())
+				}
+				return reflect.ValueOf(s)
+			})
+			render := func(name string, vars jet.VarMap) (string, error) {
+				t, err := set.GetTemplate(name)
+				if err != nil {
+					return "", err
+				}
+				var b bytes.Buffer
+				err = safeExecute(t, &b, vars, nil)
+				return b.String(), err
+			}
+			singles := []string{}
+			ok := true
+			vs, ws := []interface{}{}, []interface{}{}
+			for _, o := range ops {
+				vars := jet.VarMap{}
+				vars.Set("v", o.v).Set("w", o.w)
+				s, err := render("/one.jet", vars)
+				if err != nil {
+					ok = false // not defined for these operands (the vectors judge that)
+					break
+				}
+				singles = append(singles, s)
+				vs, ws = append(vs, o.v), append(ws, o.w)
+			}
+			if !ok {
+				continue
+			}
+			for _, name := range []string{"/rec.jet", "/keep.jet"} {
+				want := strings.Join(singles, "")
+				if name == "/rec.jet" {
+					want = singles[2] + singles[1] + singles[0]
+				}
+				for round := 1; round <= 2; round++ {
+					kept = nil
+					vars := jet.VarMap{}
+					vars.Set("vs", vs).Set("ws", ws)
+					got, err := render(name, vars)
+					if err != nil || got != want {
+						src, _ := l.Open(name)
+						text := new(bytes.Buffer)
+						text.ReadFrom(src)
+						return &Result{Sig: map[string]interface{}{"kind": "held", "form": name[1:4], "shape": kname, "ops": e}, Key: "probe",
+							Observed: got, Expected: want,
+							Detail: fmt.Sprintf("%s with vs=%v ws=%v (execution %d) rendered %q (err %v); evaluated one at a time the expression yields %q", text.String(), vs, ws, round, got, err, want)}
+					}
+				}
+			}
+		}
+	}
+	return nil
 }
